@@ -258,7 +258,7 @@ def run(repo, run, tier):
               "member table; found %s" % keys, am.loc(value_loop), sample=dict(keys=keys))
     # print of binary / paren expressions keeps structure
     for name, needle in (("visit_BinaryOp", "self.visit(node.left)+node.op+self.visit(node.right)"),
-                         ("visit_ParenExpr", "\"(\"+self.visit(node.node)+\")\""),
+                         ("visit_ParenExpr", "'('+self.visit(node.node)+')'"),
                          ("visit_UnaryOp", "node.op+self.visit(node.node)")):
         fn = tm.func("PrintNode." + name)
         run.check(R5, "todict.PrintNode.%s" % name, needle in _norm(tm.seg(fn)),
